@@ -531,20 +531,26 @@ def wrapper_decls(res, files):
     return out
 
 
+def _atomic_write(path, text):
+    """write through a temporary file of this process and rename: a concurrent reader never sees a half-written file"""
+    tmp = "%s.tmp.%d" % (path, os.getpid())
+    with open(tmp, "w") as f:
+        f.write(text)
+    os.replace(tmp, path)
+
+
 def write(rows, files):
     txt = emit(rows, files)
     os.makedirs(os.path.dirname(OUT_V), exist_ok=True)
     old = open(OUT_V).read() if os.path.exists(OUT_V) else None
     if old != txt:
-        with open(OUT_V, "w") as f:
-            f.write(txt)
+        _atomic_write(OUT_V, txt)
     js = {"repo": REPO, "functions": [
         {"name": r.name, "file": r.path, "params": [{"name": n, "ctype": t} for n, t in r.params],
          "callees": r.callees, "entries": [list(it) for it in r.items], "out_params": r.out_params(),
          "unparsed": r.unparsed} for r in rows]}
     os.makedirs(os.path.dirname(OUT_JSON), exist_ok=True)
-    with open(OUT_JSON, "w") as f:
-        json.dump(js, f, indent=1)
+    _atomic_write(OUT_JSON, json.dumps(js, indent=1))
     return js
 
 
